@@ -883,26 +883,32 @@ def mon_C16(ctx, k, sc, tr, stats):
 
 def mon_C16_oversuitable(ctx, k, sc, tr, stats):
     """Input for which the combined suitability of a cell exceeds one is rejected (both
-    arrival behaviours): if a disperser established in a cell during a dispersal action,
-    the combined suitability of that cell at that moment was at least the one computed
-    from the susceptibles left afterwards; if even that exceeds one, the landing had to
-    end in std::invalid_argument instead."""
+    arrival behaviours).  Susceptibles of a cell only decrease during a dispersal action, so
+    the FIRST disperser landing in a cell sees exactly the combined suitability computed from
+    the state before the action: if that exceeds one, the action had to end in
+    std::invalid_argument - a completed dispersal action with a landing there is a violation."""
     if sc.nhosts < 2 or not sc.totpop:
         return
     for prev, step, tag, idx, st in iter_pairs(sc, tr):
         if tag != "spread":
             continue
         weather = sc.weathers[step % len(sc.weathers)] if sc.use["weather"] and sc.weathers else None
+        landed = set()
+        for e in tr["tapes"].get(step, []):
+            if e.startswith("kernel:"):
+                _, r, c, tr_, tc = e.split(":")
+                tr_, tc = int(tr_), int(tc)
+                if 0 <= tr_ < sc.rows and 0 <= tc < sc.cols:
+                    landed.add(tr_ * sc.cols + tc)
         for i in range(sc.ncell):
             if sc.totpop[i] <= 0:
                 continue
-            took = sum(prev["hosts"][h][i]["S"] - st["hosts"][h][i]["S"] for h in range(sc.nhosts))
-            total = sum(Fraction(st["hosts"][h][i]["S"], sc.totpop[i]) * (sc.pht[h][0] if h in sc.pht else 1) * (weather[i] if weather else 1)
+            total = sum(Fraction(prev["hosts"][h][i]["S"], sc.totpop[i]) * (sc.pht[h][0] if h in sc.pht else 1) * (weather[i] if weather else 1)
                         for h in range(sc.nhosts))
             if total > 1:
                 stats["oversuitable_cells_seen"] = stats.get("oversuitable_cells_seen", 0) + 1
-                if took > 0:
-                    ctx.violation("C16.oversuitable_accepted", "step %d cell %d: %d disperser(s) established although the combined suitability of the cell is %s > 1 (population %d)" % (step, i, took, total, sc.totpop[i]), sc.text)
+                if i in landed:
+                    ctx.violation("C16.oversuitable_accepted", "step %d cell %d: a disperser landed and the dispersal action completed although the combined suitability of the cell is %s > 1 (population %d)" % (step, i, total, sc.totpop[i]), sc.text)
                     return
 
 
